@@ -273,7 +273,15 @@ fn check_doc(d: &Doc, cfg: &Cfg, cfg_name: &str, sig_class: &str) -> CaseResult 
         (Outcome::Ok(a), Outcome::Ok(b)) => {
             if !d.root || !cfg.add_auto_styles {
                 // fragment or auto-styles disabled: nothing may be injected
-                if a != b {
+                // (the debug configuration writes the configuration itself into a comment, which differs by design)
+                let strip = |x: &[u8]| -> String {
+                    let t = String::from_utf8_lossy(x).to_string();
+                    match (t.find("<!-- Config:"), t.find("<!-- Config:").and_then(|i| t[i..].find("-->").map(|j| i + j + 3))) {
+                        (Some(i), Some(j)) => format!("{}{}", &t[..i], &t[j..]),
+                        _ => t,
+                    }
+                };
+                if strip(a) != strip(b) {
                     mk("injected-without-root-or-when-disabled", format!("{doc}\nwith auto-styles: {}\nwithout: {}", clip(&String::from_utf8_lossy(a), 300), clip(&String::from_utf8_lossy(b), 300)));
                 }
                 let t = String::from_utf8_lossy(a);
@@ -411,6 +419,12 @@ pub fn run(tier: Tier) -> i32 {
                 continue;
             }
             docs.push((Doc { body: body.clone(), root: true, author: si % AUTHOR.len(), root_attrs: String::new() }, k, format!("subset/{}", classes.join("+"))));
+        }
+    }
+    // fragments in which an <svg> is not the first element: nothing is injected, whatever precedes it
+    for (ci, c) in FAMILY_REPS.iter().enumerate() {
+        for pre in ["<rect wh=\"3\"/>", "<rect wh=\"3\"/><circle r=\"1\"/>", "<g><rect wh=\"3\"/></g>", "<text xy=\"0\" text=\"t\"/>"] {
+            docs.push((Doc { body: format!("{pre}<svg>{}</svg>", carrier(c, ci % 5)), root: false, author: 0, root_attrs: String::new() }, ci % cfgs.len(), format!("fragment-with-later-svg/{c}")));
         }
     }
     // classes on the root element itself (with content, and as an empty root)
